@@ -15,7 +15,11 @@ LEVEL_TEXT = (
     "0 <= attempt < attempts) and the exception only through isinstance/membership tests, so the handler is evaluated "
     "abstractly for all 64 assignments of (last attempt, retry_for set, matches retry_for, do_not_retry_for set, matches "
     "it, name known) and compared with the specified decision; sleep placement and transparency are path facts; the "
-    "constructor guards are decided as integer half-lines / type-class tables."
+    "constructor guards are decided as integer half-lines / type-class tables. R1 bounds the number of delegate "
+    "invocations for every `attempts` from the loop structure; R6 interprets _retry end to end for attempts 1..3 against "
+    "every script of delegate outcomes the specification distinguishes (any loop structure); R7: no state is kept "
+    "between calls. For a _retry that is not the canonical one-loop shape the all-attempts argument is R1 only and the "
+    "behaviour is decided for attempts 1..3 (4 thorough)."
 )
 TRUSTED = ["CPython ast", "pmcsa/paths.py", "linear normal form and truth-table evaluation in pmcsa/rules_C17.py"]
 
